@@ -121,8 +121,15 @@ try:
             outs.append((name, fam, path))
         return outs
 
-    with concurrent.futures.ThreadPoolExecutor(max_workers=3) as ex:
+    import clusterscen
+    with concurrent.futures.ThreadPoolExecutor(max_workers=4) as ex:
+        flock = ex.submit(clusterscen.pinned_lockstep, 40 if tier == "quick" else 300)
         real_traces = [x for outs in ex.map(real, targets) for x in outs]
+        lprobs, lstats = flock.result()
+    cov["lockstep_one_client_per_node"] = lstats
+    for pr in lprobs or []:
+        v.report({"branch": "cluster.own-reply", "kind": pr["kind"], "detail": ""}, pr,
+                 what="one client per node in lock step (a standalone server answers every command with its own result): %s" % pr["detail"])
     for nd in c1.nodes[:1] + c3.nodes:
         if not nd.alive():
             v.report({"branch": "cluster.node", "kind": "node-died", "detail": ""}, {"log": c3.tail(nd, 2000)}, what="a cluster node died while serving ordinary programmes")
